@@ -74,6 +74,7 @@ type V2Client struct {
 	Raw     []byte
 	Opts    map[string]interface{}
 	hbSeen  int
+	Pipelined []byte
 }
 
 func dialV2(rc *RunCtx, name, addr string, magic string) (*V2Client, error) {
@@ -252,7 +253,12 @@ func (c *V2Client) Identify(opts map[string]interface{}, tlsCfg *tls.Config) (ma
 	}
 	c.Opts = opts
 	body, _ := json.Marshal(opts)
-	if err := c.Cmd("IDENTIFY", body); err != nil {
+	var ib bytes.Buffer
+	ib.WriteString("IDENTIFY\n")
+	binary.Write(&ib, binary.BigEndian, int32(len(body)))
+	ib.Write(body)
+	ib.Write(c.Pipelined) // bytes sent in the same segment, behind the IDENTIFY
+	if err := c.Send(ib.Bytes()); err != nil {
 		return nil, err
 	}
 	f, err := c.readFrameTimeout(10 * time.Second)
